@@ -49,7 +49,6 @@ Section C03Main.
 Context {D : Type}.
 Variable C : carrier D.
 Variable tb : optable.
-Hypothesis Hwf_tb : wf_table tb = true.
 Variable R : D -> D -> Prop.
 Hypothesis R_refl : forall a, R a a.
 Hypothesis R_sym : forall a b, R a b -> R b a.
@@ -71,7 +70,7 @@ Proof.
   intros Hwf Hlen. set (vars := find_parsed_vars (flatten c)) in *.
   destruct (vars_in_chain c) as [Hv0 Hvr]. fold vars in Hv0, Hvr.
   destruct c as [a0 rest]. unfold wf_chain in Hwf. cbn [fst snd] in *. apply andb_prop in Hwf. destruct Hwf as [Hw0 Hwr].
-  destruct (dparse_sim C tb Hwf_tb R R_refl R_sym R_trans R_bin R_un flagged_assoc vars vals Hlen (asize a0 + rsize rest)) as (_ & _ & Hc).
+  destruct (dparse_sim C tb R R_refl R_sym R_trans R_bin R_un flagged_assoc vars vals Hlen (asize a0 + rsize rest)) as (_ & _ & Hc).
   destruct (Hc a0 rest (le_n _) Hw0 Hwr Hv0 Hvr [] [] [] (S (length (flatten (a0, rest)))) eq_refl (or_introl (conj eq_refl eq_refl)))
     as (e & He & Hwe & Hr & Hdv).
   { unfold flatten. cbn [fst snd]. rewrite app_nil_r. lia. }
